@@ -201,7 +201,7 @@ PROPS = {
         monitor=True,
         streams=[chain_stream(5000, 200000, _nt_err, name='malformed'), chain_stream(3000, 100000, _nt_bound),
                  chain_stream(2000, 50000, _nt_bound, name='reorder'), chain_stream(2000, 50000, _nt_bound, name='ifaceout'),
-                 dict(name='edits', n_quick=2000, n_thorough=50000, nontrivial=_edits_nontrivial)],
+                 dict(name='edits', n_quick=2000, n_thorough=50000, nontrivial=_edits_nontrivial), conc_stream('memo', 100, 2500)],
         rule=CHAIN_RULE + 'stream malformed: a generated chain with 1-3 injected defects (literal or wrapper in last position, anonymous func parameter/result, '
              'typed nil function, unhashable inputs on Memoize/Cacheable providers, conflicting cache and selection annotations, invoke/init passed as non-pointer, '
              'nil or pointer to a non-function, unsatisfiable Required inputs, unreceived returns, MustConsume without consumer, annotations naming foreign types, '
@@ -219,7 +219,7 @@ PROPS = {
     'C05': dict(
         monitor=True,
         streams=[chain_stream(8000, 300000, _nt_c05), chain_stream(2500, 80000, _nt_c05, name='editchain'), chain_stream(2000, 60000, _nt_c05, name='nooutmotif'),
-                 dict(name='edits', n_quick=2000, n_thorough=50000, nontrivial=_edits_nontrivial)],
+                 dict(name='edits', n_quick=2000, n_thorough=50000, nontrivial=_edits_nontrivial), chain_stream(2500, 80000, _nt_c05, name='reorder'), dict(name='condense', n_quick=1500, n_thorough=50000, nontrivial=_nt_condense, compare=_condense_compare, wf_check=False)],
         rule=CHAIN_RULE + 'stream editchain: ordinary chains with named edits (InsertBeforeNamed / InsertAfterNamed / ReplaceNamed, also adjacent ones) whose execution order must be '
              'that of the edited list; stream edits: the named-edit algorithm on generated lists (as for C18). stream nooutmotif: injectors without outputs carrying Cacheable-family '
              'annotations listed among per-invocation providers, two or three invocations (they run at their listed position on every invocation). C05 non-trivial: the chain binds and at least three call events are logged',
@@ -234,7 +234,7 @@ PROPS = {
         monitor=True,
         streams=[chain_stream(6000, 200000, _nt_c06, name='static'), chain_stream(3000, 100000, _nt_bound),
                  chain_stream(2000, 50000, _nt_c06, name='ifaceout'), pair_stream('cacheperm', 5000, 150000),
-                 chain_stream(2000, 60000, _nt_bound, name='femotif'), chain_stream(2000, 60000, _nt_bound, name='nooutmotif')],
+                 chain_stream(2000, 60000, _nt_bound, name='femotif'), chain_stream(2000, 60000, _nt_bound, name='nooutmotif'), dict(name='history', n_quick=600, n_thorough=15000, nontrivial=_nt_pair, compare=_pair_compare, wf_check=False)],
         rule=CHAIN_RULE + 'stream static: the same generator biased to literals, Cacheable/MustCache/Memoize/Singleton/NotCacheable providers with inputs from '
              'literals, init arguments, other static providers or invoke arguments, init functions and sessions of 2-7 steps; C06 non-trivial: the chain binds '
              'and includes a static injector; the monitor compares class/group of every provider, the number of calls of every provider over the session and '
@@ -279,7 +279,7 @@ PROPS = {
     'C08': dict(
         monitor=True,
         streams=[conc_stream('isolation', 60, 1500), chain_stream(3000, 100000, _nt_bound),
-                 dict(name='history', n_quick=400, n_thorough=12000, nontrivial=_nt_pair, compare=_pair_compare, wf_check=False, race=True)],
+                 dict(name='history', n_quick=400, n_thorough=12000, nontrivial=_nt_pair, compare=_pair_compare, wf_check=False, race=True), conc_stream('memo', 100, 2500), conc_stream('once', 60, 1500)],
         rule='stream isolation: a fixed chain of pure providers (static injector, injector, wrapper calling inner() twice, fallible injector, then a Parallel '
              'wrapper calling inner() from two goroutines / a wrapper calling inner() three times / an injector, final) invoked by 2-11 goroutines x 20-170 '
              'invocations each in a shuffled order with distinct arguments, under the race detector with seeded Gosched/sleep perturbation at the yield hooks; '
@@ -323,7 +323,7 @@ PROPS = {
     'C11': dict(
         monitor=True,
         streams=[dict(name='history', n_quick=1200, n_thorough=40000, nontrivial=_nt_pair, compare=_pair_compare, wf_check=False, race=True),
-                 chain_stream(2000, 50000, _nt_bound, name='regroup')],
+                 chain_stream(2000, 50000, _nt_bound, name='regroup'), conc_stream('memo', 100, 2500)],
         rule='stream history (run under the race detector): a chain without Memoize/Singleton (their process-wide caches are history by design, C09) is built once, '
              'one provider possibly standing behind a GenerateFromInjectionChain generator; two collections are derived from it (Sequence, Append); then a seeded '
              'history of 3-10 operations runs over a growing pool of collections sharing its providers: Append (twice on the same collection), annotation of whole '
